@@ -275,8 +275,11 @@ class Ledger(metaclass=LedgerRegistry):
         selector = CoinSelector(amount, fee)
         async with self._utxo_reservation_lock:
             if self.coin_selection_strategy == 'sqlite':
+                # room for a change output is preferred, but covering the amount itself is enough
                 return await self.db.get_spendable_utxos(self, amount + fee, funding_accounts, min_amount=min_amount,
-                                                         fee_per_byte=self.fee_per_byte)
+                                                         fee_per_byte=self.fee_per_byte) or \
+                    await self.db.get_spendable_utxos(self, amount, funding_accounts, min_amount=min_amount,
+                                                      fee_per_byte=self.fee_per_byte)
             txos = await self.get_effective_amount_estimators(funding_accounts)
             spendables = selector.select(txos, self.coin_selection_strategy)
             if spendables:
